@@ -97,10 +97,17 @@ def _write_pieces(write, pieces, pause):
         time.sleep(pause)
 
 
-def _fd_write_all(fd, data):
-    mv = memoryview(data)
+def _fd_write_all(fd, data, deadline=15.0):
+    """Write everything to a NON-BLOCKING fd; gives up (OSError) when the reader stops taking bytes."""
+    mv, end = memoryview(data), time.monotonic() + deadline
     while mv:
-        n = os.write(fd, mv)
+        try:
+            n = os.write(fd, mv)
+        except BlockingIOError:
+            if time.monotonic() > end:
+                raise OSError("peer does not read")
+            time.sleep(0.0005)
+            continue
         mv = mv[n:]
 
 
@@ -111,6 +118,7 @@ def run_server_stdio(mode, payloads, pieces, pause, bound=20.0):
     rec = []
     srv.feature("t/n")(_recorder(rec))
     r, w = os.pipe()
+    os.set_blocking(w, False)
     rd = os.fdopen(r, "rb")                       # a BufferedReader, as sys.stdin.buffer is
     res = {}
     start_sync = priv.start_io_sync(srv)          # located here, outside the observed call
@@ -185,9 +193,9 @@ def run_server_tcp(payloads, pieces, pause, bound=20.0):
                 return {"received": rec, "ret": "no-connection"}
             time.sleep(0.02)
     try:
+        sock.settimeout(bound)
         _write_pieces(sock.sendall, pieces, pause)
         sock.shutdown(socket.SHUT_WR)
-        sock.settimeout(bound)
         while sock.recv(65536):
             pass
     except OSError:
@@ -218,6 +226,7 @@ def run_client(mode, payloads, pieces, pause, bound=20.0, abrupt=None):
         def peer():
             try:
                 c, _ = lsock.accept()
+                c.settimeout(bound)
                 _write_pieces(c.sendall, pieces, pause)
                 if abrupt is None:
                     time.sleep(0.3)              # let the client read everything before the close
@@ -283,6 +292,7 @@ def check(chk):
                 continue                           # one subprocess less in the quick tier
             pause = 0.003 if len(pieces) > 12 else 0.01
             n += 1
+            getattr(chk, "progress", lambda d: None)({"k": "entry-point", "entry": mode, "session": name})
             try:
                 impl = run_entry(mode, payloads, pieces, pause)
             except Exception as e:      # noqa
@@ -310,6 +320,7 @@ def check(chk):
                 plan.append((name, mode, status, payloads, pieces))
     for name, mode, status, payloads, pieces in plan:
         n += 1
+        getattr(chk, "progress", lambda d: None)({"k": "entry-point", "entry": mode, "session": name, "peer": "gone-at-once"})
         try:
             impl = run_entry(mode, payloads, pieces, 0.0, abrupt=status)
         except Exception as e:      # noqa
